@@ -106,7 +106,22 @@ theorem stderr_no_panic (P : Params) (hP : P.Good) (E : Ext) (n : Nat) (input : 
 theorem stdout_always_drained (P : Scanner.DrainParams) (hP : P.Good) (stream : Bytes) :
     Scanner.consumes P stream = true := consumes_of_good P hP stream
 
+/-- **A failing `Stderr` writer does not stop the host from reading the plugin's stderr**: whatever calls of the
+configured writer fail, every line is taken from the pipe (so the plugin is never blocked, and `stderr_copy_exact` /
+the record theorems above apply to the whole stream). -/
+theorem stderr_taken_all (R : ReaderParams) (hR : R.Good) (sinkFails : Nat → Bool) (lines i : Nat) :
+    stderrTaken R sinkFails lines i = lines := by
+  induction lines generalizing i with
+  | zero => rfl
+  | succ n ih =>
+    have : R.endsOnlyOnReadError = true := hR
+    simp [stderrTaken, this, ih]; omega
+
 /-! ### The structural facts matter (witnesses) -/
+
+/-- a loop that returns when the sink write fails leaves everything after the first failure unread -/
+theorem sink_error_witness : stderrTaken ⟨false⟩ (fun i => i == 2) 1000 0 = 3 := by decide
+
 
 /-- `{"@message": 5}` -/
 def lineD6 : Bytes := [123, 34, 64, 109, 101, 115, 115, 97, 103, 101, 34, 58, 32, 53, 125]
